@@ -152,3 +152,50 @@ class UpdateView(Contract):
 
 
 CONTRACTS = [UpdateView()]
+
+
+# ============================================================================= _make_link
+
+
+class MakeLink(Contract):
+    """_make_link(src, dst): directories leading to the link exist first; an existing link is accepted only if it already leads to the same place"""
+    target = f"{LV}._make_link"
+    properties = ("C17",)
+
+    def cases(self):
+        return [{"err": None}, {"err": "EEXIST", "same": True}, {"err": "EEXIST", "same": False}, {"err": "EACCES", "same": True}, {"err": "ENOENT", "same": True}]
+
+    def make_ctx(self, case):
+        import errno
+        from pyvc.core import RaiseSignal
+        ctx = super().make_ctx(case)
+        g = ctx.ghost
+        g["ev"] = []
+        ctx.callee_contracts["signac._utility._mkdir_p"] = lambda interp, b: g["ev"].append(("mkdir_p", b["path"]))
+        ctx.externals[os.path.dirname] = lambda interp, p: ("dirname", p)
+
+        def symlink(interp, src, dst, **kw):
+            g["ev"].append(("symlink", src, dst, kw))
+            if case["err"]:
+                raise RaiseSignal(OSError(getattr(errno, case["err"]), "injected"))
+        ctx.externals[os.symlink] = symlink
+        ctx.externals[os.path.realpath] = lambda interp, p: ("real", "X") if case.get("same") else ("real", p)
+        return ctx
+
+    def setup(self, interp, case):
+        return ["SRC", "DST"], {}, {}
+
+    def post(self, interp, case, pre, outcome):
+        ex, ev = interp.ex, interp.ctx.ghost["ev"]
+        order = ev[:2] == [("mkdir_p", ("dirname", "DST")), ("symlink", "SRC", "DST", {"target_is_directory": True})] and len(ev) == 2
+        ex.oblige(self.oname("ensures:the_directory_of_the_link_is_created_then_one_directory_symlink_src_to_dst"), z3.BoolVal(order), note=repr(ev))
+        if case["err"] is None:
+            ex.oblige(self.oname("ensures:returns_normally_when_the_link_was_created"), z3.BoolVal(outcome[0] == "return"))
+        elif case["err"] == "EEXIST" and case["same"]:
+            ex.oblige(self.oname("ensures:an_existing_link_that_already_leads_to_the_same_place_is_accepted"), z3.BoolVal(outcome[0] == "return"))
+        else:
+            ex.oblige(self.oname("raises:every_other_failure_(incl._an_existing_entry_leading_elsewhere)_is_raised"),
+                      z3.BoolVal(outcome[0] == "raise" and isinstance(outcome[1], OSError)), note=repr(outcome))
+
+
+CONTRACTS += [MakeLink()]
